@@ -124,7 +124,12 @@ pub enum DataCmdType {
     Smove,
     Spop,
     Srem,
+    Sdiffstore,
+    Sinterstore,
+    Sunionstore,
     // Sorted Set commands
+    Zinterstore,
+    Zunionstore,
     Zpopmax,
     Zpopmin,
     Zrem,
@@ -212,6 +217,11 @@ impl DataCmdType {
             b"RENAME" => DataCmdType::Rename,
             b"RENAMENX" => DataCmdType::Renamenx,
             b"SMOVE" => DataCmdType::Smove,
+            b"SDIFFSTORE" => DataCmdType::Sdiffstore,
+            b"SINTERSTORE" => DataCmdType::Sinterstore,
+            b"SUNIONSTORE" => DataCmdType::Sunionstore,
+            b"ZINTERSTORE" => DataCmdType::Zinterstore,
+            b"ZUNIONSTORE" => DataCmdType::Zunionstore,
             b"SPOP" => DataCmdType::Spop,
             b"SREM" => DataCmdType::Srem,
             b"UNLINK" => DataCmdType::Unlink,
@@ -262,6 +272,12 @@ pub fn requires_blocking_migration(data_cmd_type: DataCmdType) -> bool {
             | DataCmdType::Smove
             | DataCmdType::Spop
             | DataCmdType::Srem
+            // The *STORE commands delete their destination key when the result is empty.
+            | DataCmdType::Sdiffstore
+            | DataCmdType::Sinterstore
+            | DataCmdType::Sunionstore
+            | DataCmdType::Zinterstore
+            | DataCmdType::Zunionstore
             | DataCmdType::Unlink
             | DataCmdType::Zpopmax
             | DataCmdType::Zpopmin
